@@ -1,6 +1,7 @@
 SPECIFICATION Spec
 CONSTANTS
   MaxOps = 2
+  Vers = {1}
   NIns = 2
 INVARIANT Idempotent
 INVARIANT SigIndependent
